@@ -44,6 +44,8 @@ def dispatch (line : String) : String :=
   | "pipflags" :: rest => (handlePIPFlags rest).getD "BAD-CASE\t0"
   | "ptcpflags" :: rest => (handlePTCPFlags rest).getD "BAD-CASE\t0"
   | "pportsfile" :: rest => (handlePPortsFile rest).getD "BAD-CASE\t0"
+  | "pportsfault" :: rest => (handlePFault true rest).getD "BAD-CASE\t0"
+  | "pexclfault" :: rest => (handlePFault false rest).getD "BAD-CASE\t0"
   | "pexclfile" :: rest => (handlePExclFile rest).getD "BAD-CASE\t0"
   | "jres" :: rest => (handleJRes rest).getD "BAD-CASE\t0"
   | "jlog" :: rest => (handleJLog rest).getD "BAD-CASE\t0"
